@@ -450,6 +450,13 @@ func checkCircumcenter(ctx *Ctx, r *Report, fn *ssa.Function, key string) {
 		r.undecided("Y4", key, fn.Pos(), "too many branch conditions")
 		return
 	}
+	tests0 := func(ts []test) []cond20 {
+		out := make([]cond20, len(ts))
+		for i, t := range ts {
+			out[i] = cond20{t.c, t.i, t.j}
+		}
+		return out
+	}
 	n := 0
 	for m := 0; m < 1<<uint(len(tests)); m++ {
 		truth := map[string]bool{}
@@ -487,6 +494,106 @@ func checkCircumcenter(ctx *Ctx, r *Report, fn *ssa.Function, key string) {
 			"|c−p1|² ≡ |c−p2|² ≡ |c−p3|² as rational functions of the vertex coordinates; xc = "+shortKey(cx.Key(), 160))
 	}
 	r.Counts["circumcenter_branches"] += n
+	checkBisectorChoice(r, fn, key, xc, yc, tests0(tests), Y)
+}
+
+type cond20 struct {
+	c    *Term
+	i, j int
+}
+
+// checkBisectorChoice (Y12): where the general branch chooses between the two perpendicular
+// bisectors by comparing |Δy| of the two edges, the chosen bisector is the one of the edge with
+// the LARGER |Δy| (slope −Δx/Δy of smaller magnitude). Both give the same centre as rational
+// functions (Y4), but the other choice multiplies the cancellation error of xc − mx by a slope of
+// up to 1/epsilon for nearly horizontal edges and the circumcircle is off by units.
+// Decided on the closed form: under the ordering test each alternative of y_c has exactly one
+// slope denominator as an outer factor of its products; it must be ±(the larger difference).
+func checkBisectorChoice(r *Report, fn *ssa.Function, key string, xc, yc *Term, tests []cond20, Y func(int) *Term) {
+	truth := map[string]bool{}
+	var ord []*Term
+	for _, t := range tests {
+		if t.i >= 0 {
+			truth[t.c.Key()] = false
+		} else if t.c.Op == "cmp" && len(t.c.Args) == 2 {
+			ord = append(ord, t.c)
+		}
+	}
+	// the slope denominator with the highest power among the outer factors of the products
+	// (x_c itself contains both slopes once; m_i·(x_c − mx_i) raises the chosen one to two)
+	outer := func(t *Term) *Term {
+		mult := map[string]int{}
+		terms := map[string]*Term{}
+		ps := []*Term{t}
+		if t.Op == "+" {
+			ps = t.Args
+		}
+		for _, p := range ps {
+			fs := []*Term{p}
+			if p.Op == "*" {
+				fs = p.Args
+			}
+			cnt := map[string]int{}
+			for _, f := range fs {
+				if f.Op == "/" && len(findSub(f.Args[0], func(x *Term) bool { return x.Op == "/" })) == 0 {
+					cnt[f.Args[0].Key()]++
+					terms[f.Args[0].Key()] = f.Args[0]
+				}
+			}
+			for k, n := range cnt {
+				if n > mult[k] {
+					mult[k] = n
+				}
+			}
+		}
+		var best *Term
+		bestN, tie := 0, false
+		for k, n := range mult {
+			if n > bestN {
+				best, bestN, tie = terms[k], n, false
+			} else if n == bestN {
+				tie = true
+			}
+		}
+		if tie {
+			return nil
+		}
+		return best
+	}
+	absArg := func(t *Term) *Term {
+		if t.Op == "call" && t.S == "math.Abs" && len(t.Args) == 1 {
+			return t.Args[0]
+		}
+		return nil
+	}
+	same := func(a, b *Term) bool { return equalRat(Sub(a, b), K(0)) || equalRat(Add(a, b), K(0)) }
+	for _, c := range ord {
+		l, s := absArg(c.Args[0]), absArg(c.Args[1])
+		switch c.S {
+		case ">", ">=":
+		case "<", "<=":
+			l, s = s, l
+		default:
+			continue
+		}
+		if l == nil || s == nil {
+			continue
+		}
+		tt := map[string]bool{c.Key(): true}
+		ff := map[string]bool{c.Key(): false}
+		for k, v := range truth {
+			tt[k], ff[k] = v, v
+		}
+		dT, dF := outer(assume(yc, tt)), outer(assume(yc, ff))
+		a, b := dT, dF
+		if a == nil || b == nil || a.Key() == b.Key() {
+			continue // the choice is not in the recognised closed form: not decided here
+		}
+		ok := same(a, l) && same(b, s)
+		r.Counts["bisector_choices"]++
+		r.check("Y12", key+"|bisector-of-steeper-edge", fn.Pos(), ok,
+			fmt.Sprintf("under %s the y of the centre is taken on the bisector dividing by %s (the larger |Δy|), otherwise by %s", shortKey(c.Key(), 120), shortKey(a.Key(), 60), shortKey(b.Key(), 60)))
+	}
 }
 
 func checkInCircumcircle(ctx *Ctx, r *Report) {
